@@ -36,6 +36,9 @@ Q_CASES = {
     'enc-audio-playready-v1': ('bbb_a1_enc', 'bbb_v7', {'drm': 'playready', 'playready__version': '1.0'}),
     'enc-audio-all-piff-saiobug': ('bbb_a1_enc', 'bbb_v7', {'drm': 'all', 'playready__piff': '1', 'bugs': 'saio'}),
     'enc-audio-marlin': ('bbb_a1_enc', 'bbb_v7', {'drm': 'marlin'}),
+    'enc-video-clearkey-ping': ('bbb_v7_enc', 'bbb_v7', {'drm': 'clearkey', 'events': 'ping', 'ping__interval': '100'}),
+    'enc-video-playready-nopiff-scte35': ('bbb_v7_enc', 'bbb_v7', {'drm': 'playready', 'playready__piff': '0',
+                                                                   'events': 'scte35', 'scte35__interval': '200'}),
     'video-ping': ('bbb_v7', 'bbb_v7', {'events': 'ping', 'ping__count': '0', 'ping__interval': '100'}),
     'video-scte35': ('bbb_v7', 'bbb_v7', {'events': 'scte35', 'scte35__interval': '200'}),
 }
@@ -299,6 +302,8 @@ def instances(tier):
     out = []
     for case in cases:
         for base in BASES:
+            if tier == 'quick' and base == 'x32' and cases[case][0] == 'bbb_v7_enc':
+                continue     # 90 kB segments: the 2**32 crossing of these cases runs in the thorough tier
             out.append({'name': f'segment[{case},{base}]', 'fn': h_segment, 'weight': 2,
                         'params': {'case': case, 'base': base, 'tier': tier},
                         'opts': {'max_paths': 4000, 'max_decisions': 20000, 'query_timeout_ms': 60000}})
